@@ -187,6 +187,15 @@ class NormalTmpFileAssignmentLoader(BaseTmpFileAssignmentLoader):
         elif self.is_read_assignment():
             assert self.current_gene_info is not None
             assignment = ReadAssignment.deserialize(self.loader, self.current_gene_info)
+            if self.chr_record and assignment.genomic_region and \
+                    (assignment.genomic_region[0] < self.current_gene_info.all_read_region_start or
+                     assignment.genomic_region[1] > self.current_gene_info.all_read_region_end):
+                # reads may stick out of the annotated genes: restore the reference of the whole processed region,
+                # as it was set when the reads were collected
+                self.current_gene_info.set_reference_sequence(
+                    min(assignment.genomic_region[0], self.current_gene_info.all_read_region_start),
+                    max(assignment.genomic_region[1], self.current_gene_info.all_read_region_end),
+                    self.chr_record)
             self._read_id()
             return assignment
         else:
